@@ -15,10 +15,10 @@ def _(self, gene, region):
 def cn_locus_depth(gene, coverage):
     """normalised depth of the locus: over the (distinct) copy-number regions of the gene, depth of the gene copy
     plus depth of the pseudogene copy (a gene without pseudogene has only the first term)"""
-    return sum(coverage._region_coverage[0, r] + (coverage._region_coverage[1, r] if len(gene.regions) > 1 else 0.0)
-               for r in set(gene.unique_regions))
+    return sum(r0 + r1 for r0, r1 in {r: (coverage._region_coverage[0, r], coverage._region_coverage[1, r] if len(gene.regions) > 1 else 0.0)
+                                      for r in gene.unique_regions}.values())
 
 
 def cn_config_copies(gene, c):
     """number of region copies structure c accounts for (all regions of the gene's and the pseudogene's table)"""
-    return sum(sum(t[r] for r in t) for t in gene.cn_configs[c].cn)
+    return sum(sum(v.values()) for v in gene.cn_configs[c].cn)
